@@ -11,11 +11,11 @@ from fractions import Fraction
 
 from .. import terms as T
 from ..ivl import IvlModel
-from ..meanci import ConfModel, KINDS, F0, F1, NORMAL, crit, unwrap_ok
+from ..meanci import ConfModel, KINDS, F0, F1, NORMAL, crit, unwrap_ok, nonneg_crit
 from ..nf import Ctx as NF, NotReal
 from ..realmode import prune
 from ..symex import Unsupported
-from .C02 import summ, mk_domain, score_poly, N, K, L, FN, FK
+from .C02 import summ, mk_domain, score_poly, wilson_ref, wald_ref, N, K, L, FN, FK
 
 PID = 'C17'
 MIRROR = {'two': 'two', 'upper': 'lower', 'lower': 'upper'}
@@ -69,6 +69,23 @@ def run_cfg(chk, facts, cfg):
                 n_ok += 1
             except (Unsupported, NotReal) as e:
                 chk.ob(key, 'E7-substitution', label, None, 'undecided: %s' % e, where)
+        # premise of the cited consequences (monotone in k, wider with the level, ...): the bounds are the
+        # *signed* formula - span carries the sign of z, so that levels below 1/2 move the bound the other way
+        for kind, kname in KINDS:
+            try:
+                (k1, lo1, hi1), _ = ok_interval(facts, nf, im, cm, fn, kind, None, dom)
+                z = crit(NORMAL, cm.quantile(kind, L))
+                centre, span = wilson_ref(z) if label != 'ci_z_normal' else wald_ref(z)
+                probs = []
+                with nonneg_crit(nf, z, kind == 'two'):
+                    if kind in ('two', 'upper') and not nf.term_equal(lo1, T.op('sub', centre, span)):
+                        probs.append('lower bound is not centre - span with the signed span z/(n+z^2)*sqrt(..)')
+                    if kind in ('two', 'lower') and not nf.term_equal(hi1, T.op('add', centre, span)):
+                        probs.append('upper bound is not centre + span with the signed span')
+                chk.ob('%s:signed-formula:%s:%s%s' % (PID, label, kname, sfx), 'E4', '%s(%s): bounds are centre -/+ span with span odd in z (premise of "a higher level gives a wider interval")' % (label, kname),
+                       not probs, '; '.join(probs), where)
+            except (Unsupported, NotReal) as e:
+                chk.ob('%s:signed-formula:%s:%s%s' % (PID, label, kname, sfx), 'E4', label, None, 'undecided: %s' % e, where)
         if label != 'ci_z_normal':
             # premise of the cited consequences
             try:
